@@ -54,6 +54,8 @@ func init() {
 			}
 			c.guard("RW.SCOPEAGREE", func() { r.ruleScopeAgree(forOK, "agree") })
 			c.guard("RW.TMPL.FOR", r.ruleTmplFor)
+			c.guard("RW.TMPL.COMBINESPLIT", r.ruleTmplCombineSplit)
+			c.guard("RW.TMPL.IF", r.ruleTmplStmts)
 			// C01 answers for the supported subset: unlabelled break/continue (labelled forms, goto and fallthrough are C12's)
 			c.keep(func(o Obligation) bool {
 				if o.Rule == "RW.BRANCHCTX" {
@@ -85,6 +87,7 @@ func init() {
 			c.guard("RW.TMPL.YIELDFUNC", r.ruleTmplYieldFunc)
 			c.guard("RW.SCOPE.INIT", r.ruleScopeInit)
 			c.guard("RW.TMPL.FORPOST", func() { r.ruleScopeAgree(true, "forpost") })
+			c.guard("RW.TMPL.COMBINESPLIT", r.ruleTmplCombineSplit)
 			// scoping only: the combine table, hoisting (not return rewriting), the consumer loop's binding form
 			c.keep(func(o Obligation) bool {
 				switch o.Rule {
